@@ -42,6 +42,9 @@ MUTANTS = [
   "the rename (behind a forwarder on a path type) no longer refuses an existing target"),
  ("C18-r4", "internal/persistence/local/spec_file.go", "\tif _, err := file.Write(content); err != nil {\n\t\treturn err\n\t}\n", "\t_, _ = file.Write(content)\n", "C18", "C18.atomic-save",
   "the helper that stages the new text no longer reports a failed write"),
+ ("C20-r4", "internal/frontend/dag/history_grid.go", "return func(n *model.Node) bool { return n.Step.Name == name }",
+  "return func(n *model.Node) bool { return len(n.Step.Name) == len(name) }", "C20", "C20.edit-footprint",
+  "the predicate made for the index helper no longer compares the step's name with the request's"),
 ]
 def keys(tree, prop):
     p = subprocess.run([BD, "-prop", prop, "-keys", "-dir", tree], env=ENV, capture_output=True, text=True)
